@@ -40,9 +40,9 @@ def ppop (s : St) : Option St :=
 
 /-- `onDone`: `queueSize -= elSize; if queueSize < 0 { queueSize = 0 }; hasMoreSpace.Broadcast()` -/
 def pfinish (s : St) (id : Nat) (el : Int) (e : Nat) : St :=
-  condBroadcast { s with size := if s.size - el < 0 then 0 else s.size - el,
-                      inflight := s.inflight.filter (fun x => x.1 != id),
-                      finished := s.finished ++ [id], outcomes := s.outcomes ++ [(id, e)] }
+  condBroadcast { s with size := (if s.size - el < 0 then 0 else s.size - el),
+                         inflight := s.inflight.filter (fun x => x.1 != id),
+                         finished := s.finished ++ [id], outcomes := s.outcomes ++ [(id, e)] }
 
 def pfire (k : Cfg) (s : St) : Label → Option St
   | .offer p el =>
